@@ -181,6 +181,12 @@ impl VM {
         self.bp = base_pointer;
     }
 
+    /// Hands the given object (usually the result of a run) and everything it refers to over to the caller:
+    /// this VM no longer manages its memory.
+    pub fn untrace(&mut self, obj: Object) {
+        self.gc.untrace(obj);
+    }
+
     /// Executes the given Bytecode inside the context of this VM
     pub fn run(&mut self, code: Bytecode) -> Result<Object, Error> {
         // the garbage collector is taken out of the VM for the duration of the run
@@ -527,7 +533,8 @@ impl VM {
                     self.push(value);
                 }
                 OpCode::Halt => {
-                    gc.untrace(final_result);
+                    // The result stays managed by this VM: it can be (part of) the value of a global
+                    // variable. A caller that outlives the VM takes it over with `VM::untrace`.
                     return Ok(final_result);
                 }
             }
